@@ -66,7 +66,11 @@ def r3_const_uses(toks, const_names, self_is_bnum, log):
             # find the path head
             j = i - 2
             head = toks[j]
-            if head == '>':
+            if head == '>' and i >= 4 and toks[i - 4:i - 1] == ['<', 'Self', '>'] and (i < 5 or toks[i - 5] != '::'):
+                # qualified-self form `< Self > :: X` (as produced by `<$ty>::ONE` in macros)
+                j = i - 3
+                head = 'Self'
+            elif head == '>':
                 # generic args `:: < N > ::` : walk back to '<'
                 d = 0
                 while j >= 0:
